@@ -65,6 +65,8 @@ def check(repo, col, tier):
     c01_solver._assembly_jaxley(repo, col, "R-C02-rowsum")
     c01_solver._assembly_sparse(repo, col, "R-C02-rowsum")
     c01_solver._merge(repo, col, "R-C02-schedule")
+    # ... and is triangulated / back-substituted with the bands in the places the kernels expect them (shared with C01/C15)
+    c01_solver._schedule(repo, col, "R-C02-schedule")
     # the branch-point rows are summed over groups of edges: weights and group indices must list the edges in the same order, or a
     # uniform voltage does not stay uniform and charge is not conserved at the branch points
     # the edge table that the conductances and (for jax.sparse) the matrix are built from attaches every branch point to the LAST
